@@ -13,6 +13,8 @@ import (
 	"context"
 	"fmt"
 	"strings"
+	"sync"
+	"sync/atomic"
 	"testing"
 	"testing/synctest"
 	"time"
@@ -27,6 +29,9 @@ type vfC06Case struct {
 	UpdateAt  int // DTLS 1.3: UpdateKeys (sender) after this many writes; <=0 none
 	UpdateN   int // number of consecutive key updates at that point (0 = 1)
 	ScriptTag string
+	// PreDeliver: everything written before the update reaches the receiver (once, in order) before the update
+	// starts, so the receiver's replay state of the old epoch is populated when the KeyUpdate is processed
+	PreDeliver bool
 }
 
 func (c vfC06Case) ID() string {
@@ -96,8 +101,16 @@ func vfC06Run(t *testing.T, res *vfResult, c vfC06Case) {
 	})
 	payloads := make([][]byte, c.N)
 	recIdx := make([]int, c.N) // index into held
+	var preDelivered []int
 	for i := 0; i < c.N; i++ {
 		if c.UpdateAt > 0 && i == c.UpdateAt {
+			if c.PreDeliver {
+				for j := 0; j < i; j++ {
+					n.Deliver(string(receiver.EP.addr), held[recIdx[j]].Data, vfAddrOf(sender.Name))
+					preDelivered = append(preDelivered, j)
+				}
+				synctest.Wait()
+			}
 			for u := 0; u < max(1, c.UpdateN); u++ {
 				holding = false
 				ctx, cancel := context.WithTimeout(context.Background(), 30*time.Second)
@@ -149,6 +162,13 @@ func vfC06Run(t *testing.T, res *vfResult, c vfC06Case) {
 	must := map[int]bool{}
 	either := map[int]bool{}
 	dupArrivals, reordered := 0, 0
+	for _, idx := range preDelivered { // arrived in order before the update: all new, all due
+		o := obs[recIdx[idx]]
+		arrived[idx], must[idx] = true, true
+		if !hasHighest[o.Epoch] || o.Seq > highest[o.Epoch] {
+			highest[o.Epoch], hasHighest[o.Epoch] = o.Seq, true
+		}
+	}
 	for _, idx := range c.Script {
 		o := obs[recIdx[idx]]
 		if arrived[idx] {
@@ -336,6 +356,95 @@ func vfC06ReplayAcrossExport(t *testing.T, res *vfResult, idx int) {
 	}
 }
 
+// vfC06QueuedWrites: DTLS 1.3. A key update of X waits for its (lost) acknowledgement, a second one is queued behind
+// it, several application writes are queued behind that, and then the peer asks X to update its keys: X has to slip
+// its answer in ahead of the queue. Nothing is duplicated by the network here, so each payload written once must be
+// delivered exactly once.
+func vfC06QueuedWrites(t *testing.T, res *vfResult, idx int) {
+	res.Eval(1)
+	suite := []string{"13-GCM128", "13-CHACHA", "13-GCM256"}[idx%3]
+	writes := 2 + (idx/3)%3
+	cfg := vfBaseCfg(vfSuiteByName(suite), "ecdsa")
+	cfg.CVer, cfg.SVer, cfg.HelloVerify = "13", "13", false
+	co, so := cfg.Options(nil, nil)
+	n := vfNewNet()
+	p, err := vfNewPair(n, co, so)
+	if err != nil {
+		res.Count("config_rejected", 1)
+
+		return
+	}
+	if ce, se := p.Handshake(time.Minute); ce != nil || se != nil {
+		res.Count("session_failed", 1)
+		p.Close()
+		synctest.Wait()
+
+		return
+	}
+	x, y := p.S, p.C
+	if (idx/9)%2 == 1 {
+		x, y = p.C, p.S
+	}
+	p.C.StartPump()
+	p.S.StartPump()
+	time.Sleep(3 * time.Second)
+	synctest.Wait()
+	var dropToX atomic.Bool
+	n.SetOnSend(func(n *vfNet, w *vfWire) {
+		if dropToX.Load() && w.From == y.Name {
+			return
+		}
+		n.Deliver(w.Dst, w.Data, vfAddrOf(w.From))
+	})
+	ctx, cancel := context.WithTimeout(context.Background(), 60*time.Second)
+	defer cancel()
+	var wg sync.WaitGroup
+	bg := func(f func()) {
+		wg.Add(1)
+		go func() { defer wg.Done(); f() }()
+	}
+	dropToX.Store(true) // the acknowledgement of the first update does not arrive
+	bg(func() { _ = x.Conn.UpdateKeys(ctx, KeyUpdateOptions{}) })
+	time.Sleep(100 * time.Millisecond)
+	bg(func() { _ = x.Conn.UpdateKeys(ctx, KeyUpdateOptions{}) })
+	time.Sleep(60 * time.Millisecond)
+	var payloads [][]byte
+	_ = x.Conn.SetWriteDeadline(time.Now().Add(30 * time.Second))
+	for k := 0; k < writes; k++ {
+		pl := []byte(fmt.Sprintf("c06-queued-%d-%d", idx, k))
+		payloads = append(payloads, pl)
+		bg(func() { _, _ = x.Conn.Write(pl) })
+		time.Sleep(60 * time.Millisecond)
+	}
+	dropToX.Store(false)
+	bg(func() { _ = y.Conn.UpdateKeys(ctx, KeyUpdateOptions{RequestPeerUpdate: true}) })
+	time.Sleep(20 * time.Second)
+	synctest.Wait()
+	id := fmt.Sprintf("queued-writes/%s/%s/x%d", suite, x.Name, writes)
+	res.NonTrivial(fmt.Sprintf("%s/%d", id, idx))
+	res.Count("queued_write_cases", 1)
+	count := map[string]int{}
+	for _, rd := range y.ReadsSnapshot() {
+		count[string(rd)]++
+	}
+	for _, pl := range payloads {
+		switch k := count[string(pl)]; {
+		case k > 1:
+			res.Violate("C06:delivered-twice:writes-queued-behind-key-update", fmt.Sprintf("%s: payload %q was written once and delivered %d times (no datagram was duplicated); all reads: %v", id, pl, k, count),
+				map[string]any{"queued_writes": idx})
+		case k == 0:
+			res.Violate("C06:accepted-record-not-delivered:writes-queued-behind-key-update", fmt.Sprintf("%s: payload %q was written (queued behind a pending key update) and never delivered within 20 s of a clean path; all reads: %v", id, pl, count),
+				map[string]any{"queued_writes": idx})
+		default:
+			res.Count("queued_writes_delivered_once", 1)
+		}
+	}
+	cancel()
+	p.Close()
+	wg.Wait()
+	synctest.Wait()
+}
+
 func TestVF_C06(t *testing.T) {
 	vfGetPKI()
 	res := vfNewResult("C06", "arrival scripts over captured application records: exhaustive for all scripts of length <= n+2 over n <= 3 (quick) / 4 "+
@@ -417,6 +526,8 @@ func TestVF_C06(t *testing.T) {
 					}
 				}
 				cases = append(cases, vfC06Case{Name: v.Name, Cfg: v.Cfg, W: 64, N: 10, Script: s, UpdateAt: at, ScriptTag: fmt.Sprintf("keyupdate@%d-forward-then-replay-all", at)})
+				cases = append(cases, vfC06Case{Name: v.Name, Cfg: v.Cfg, W: 64, N: 10, Script: s, UpdateAt: at, PreDeliver: true,
+					ScriptTag: fmt.Sprintf("delivered-then-keyupdate@%d-then-replay-all", at)})
 				// old epoch, one record of the new epoch, old epoch again, rest
 				s = nil
 				for i := 0; i < at; i++ {
@@ -486,6 +597,7 @@ func TestVF_C06(t *testing.T) {
 	vfBubbles(t, len(cases), func(t *testing.T, i int) { vfC06Run(t, res, cases[i]) })
 	vfBubbles(t, vfPick(6, 40)*len(vfC06Cfgs()), func(t *testing.T, i int) { vfC06LastWords(t, res, i) })
 	vfBubbles(t, vfPick(24, 200), func(t *testing.T, i int) { vfC06ReplayAcrossExport(t, res, i) })
+	vfBubbles(t, vfPick(18, 180), func(t *testing.T, i int) { vfC06QueuedWrites(t, res, i) })
 	vfCaseName = nil
 	res.Floor("duplicate_arrivals_rejected", 100)
 	res.Floor("reordered_accepted", 100)
